@@ -458,8 +458,8 @@ bool Instance::configure_tx_txin() {
                 fprintf(stderr, "can't parse script pub key, or script pub key ended prematurely\n");
                 return false;
             }
-            if (opcode != OP_HASH160) {
-                fprintf(stderr, "unknown/non-standard script pub key (expected OP_HASH160, got %s)\n", GetOpName(opcode).c_str());
+            if (opcode != OP_HASH160 || !scriptPubKey.IsPayToScriptHash()) {
+                fprintf(stderr, "unknown/non-standard script pub key (expected OP_HASH160 <20 bytes> OP_EQUAL, got %s)\n", HexStr(scriptPubKey).c_str());
                 return false;
             }
             if (!scriptPubKey.GetOp(it, opcode, pushval)) {
